@@ -16,7 +16,7 @@ LEVEL = "exploration"
 SHARDS = {"quick": 4, "thorough": 16}
 THOROUGH_DEPTH = 20      # thorough tier = this many times the base thorough budget (VERIF_DEPTH overrides)
 FORMS = ["fresh", "view", "aliased", "float32-free"]
-REGIONS = {"form:fresh": 300, "form:view": 300, "form:aliased": 300, "form:objects": 300}
+REGIONS = {"form:fresh": 300, "form:view": 300, "form:aliased": 300, "form:objects": 300, "form:readonly": 300}
 THOROUGH_QUOTA_MULT = 4
 
 
@@ -144,6 +144,11 @@ def specs():
     add("DCM(q=)", lambda q: np.asarray(DCM(q=q)), lambda a: [a.q()])
     add("DCM(rpy=)", lambda x: np.asarray(DCM(rpy=list(x))), lambda a: [a.ang()])
     add("DCM(axang=)", lambda ax: np.asarray(DCM(axang=(ax, 0.4))), lambda a: [a.v()])
+    from ahrs.common.dcm import rotation, rot_seq
+    for lab, ang in (("null angle", 0.0), ("whole turn", 2 * np.pi), ("generic", 0.7)):      # trivial angles take their own (early-return) paths
+        add("dcm.rotation[%s]" % lab, lambda x, ang=ang: rotation("z", ang + 0.0 * x[0]), lambda a: [a.v()])
+        add("dcm.rot_seq[%s]" % lab, lambda x, ang=ang: rot_seq("zyx", x * 0.0 + np.array([ang, 0.0, ang])), lambda a: [a.ang()])
+        add("DCM(x=,z=)[%s]" % lab, lambda x, ang=ang: np.asarray(DCM(x=ang + 0.0 * x[0], z=0.0)), lambda a: [a.v()])
     add("DCM.from_quaternion", lambda q: DCM().from_quaternion(q), lambda a: [a.q()])
     add("DCM.from_quaternion[batch]", lambda q: DCM().from_quaternion(q), lambda a: [a.q(4)])
     add("DCM.from_axisangle", lambda ax: DCM().from_axisangle(ax, 0.4), lambda a: [a.v()])
@@ -344,7 +349,7 @@ def generate(rng, tier, shard, nshards):
     k = 0
     for rep in range(reps):
         for idx in range(nspec):
-            for form in ("fresh", "view", "aliased", "objects"):
+            for form in ("fresh", "view", "aliased", "objects", "readonly"):
                 k += 1
                 if k % nshards != shard:
                     continue
@@ -384,6 +389,16 @@ def snapshot(args):
 def make_forms(args, form, rng):
     if form == "fresh":
         return [a.copy() if isinstance(a, np.ndarray) else a for a in args]
+    if form == "readonly":     # arrays the caller has write-protected (a broadcast reference, a memory-mapped log): a function that only reads them must work
+        out = []
+        for a in args:
+            if isinstance(a, np.ndarray):
+                b = a.copy()
+                b.setflags(write=False)
+                out.append(b)
+            else:
+                out.append(a)
+        return out
     if form == "objects":      # quaternion / rotation-matrix shaped arguments handed over as the library's own array objects (same values)
         import ahrs
         from ahrs.common.dcm import DCM
@@ -473,8 +488,14 @@ def check(case, ctx):
     else:
         ctx.ok("caller's array arguments are byte-identical after the call", True, route=name)
     if not r1.ok:
-        ctx.note("call raised %s (validity is other properties' business): repeatability not evaluated" % r1.exc_name)
+        if case.p["form"] == "readonly" and "read-only" in str(r1.exc):
+            ctx.ok("write-protected arguments are only read (the call does not fail for want of write access)", False,
+                   {"exc": "%s: %s" % (r1.exc_name, str(r1.exc)[:100]), "write_site": r1.where}, route=name)
+        else:
+            ctx.note("call raised %s (validity is other properties' business): repeatability not evaluated" % r1.exc_name)
         return
+    if case.p["form"] == "readonly":
+        ctx.ok("write-protected arguments are only read (the call does not fail for want of write access)", True, route=name)
     if isinstance(r1.value, SameObject):
         so = r1.value
         raised = [x.msg for x in so.results if isinstance(x, RepeatRaised)]
@@ -490,16 +511,55 @@ def check(case, ctx):
                    {"which": [i for i, (b, c) in enumerate(zip(so.state_before, so.state_after)) if b != c]}, route=name)
     # repeatability: same objects again, then pristine copies
     r2 = call(run, args)
+    # a caller may do what it likes with an array it was handed back: overwrite every returned array that is not one of the arguments,
+    # then call again with pristine arguments - the answer must still be the first one (no result buffer shared between calls)
+    saved = flat(r1.value).copy()
+    undo = []
+    scribbled = scribble(r1.value, args, undo)
+    if scribbled:
+        r4 = call(run, make_forms(pristine, case.p["form"], rng))
+        a4 = flat(r4.value).copy() if r4.ok else None
+        for arr_, old_ in undo:        # put the buffers back: a shared one would otherwise poison every later case of this process
+            arr_[...] = old_
+        if r4.ok:
+            ctx.ok("a result overwritten by the caller does not change what the next call returns", a4.shape == saved.shape and np.array_equal(a4, saved, equal_nan=True),
+                   {"overwritten_arrays": scribbled, "max_diff": float(np.nanmax(np.abs(a4 - saved))) if a4.shape == saved.shape and a4.size else None}, route=name)
     # pristine arguments in the same memory layout (a strided view and a contiguous copy may legitimately differ in the last bit)
     r3 = call(run, make_forms(pristine, case.p["form"], rng))
     for lab, r in (("the same objects", r2), ("pristine copies of the arguments", r3)):
         if not r.ok:
             ctx.ok("second call with %s returns the same result" % lab, False, {"exc": "%s: %s" % (r.exc_name, str(r.exc)[:100])}, route=name)
             continue
-        a1, a2 = flat(r1.value), flat(r.value)
+        a1, a2 = saved, flat(r.value)
         same = a1.shape == a2.shape and np.array_equal(a1, a2, equal_nan=True)
         ctx.ok("second call with %s returns the same result" % lab, same,
                {"max_diff": float(np.nanmax(np.abs(a1 - a2))) if a1.shape == a2.shape and a1.size else None, "form": case.p["form"]}, route=name)
+
+
+def scribble(val, args, undo):
+    """overwrite every writable ndarray inside a result that shares no memory with an argument; returns how many were overwritten
+    (undo collects (array, previous content) pairs)"""
+    n = 0
+    if isinstance(val, SameObject):
+        return 0
+    if isinstance(val, (tuple, list)):
+        return sum(scribble(v, args, undo) for v in val)
+    if isinstance(val, np.ndarray) and val.size and val.dtype.kind in "fiuc":
+        try:
+            if any(isinstance(a, np.ndarray) and np.shares_memory(val, a) for a in args):
+                return 0
+            if val.flags.writeable:
+                undo.append((val, np.array(val, copy=True)))
+                val[...] = 7.125
+                for at in ("A", "array"):
+                    side = getattr(val, at, None)
+                    if isinstance(side, np.ndarray) and side.flags.writeable and type(val) is not np.ndarray:
+                        undo.append((side, np.array(side, copy=True)))
+                        side[...] = 7.125
+                n = 1
+        except Exception:      # noqa: BLE001
+            return 0
+    return n
 
 
 def _alias_like(pristine, args):
